@@ -400,11 +400,11 @@ macro_rules! c01_pipe {
 c01_pipe!(c01_pipe_lower_2x2_f_ax1, i8, id8, 0i8, Lower, 2, 2, 4, 2, 1, 1, [T2[2], T2[1]], 8);
 //@ prop=C01,C03:thorough,C20:thorough tier=quick mem=6 timeout=1500 flags=modelmap uses=cut inst="quantiles_axis_mut(Axis(1), [1-ulp, 0.0], Nearest) on ArrayViewMut2<i8> 2x2 C-order rows reversed (contiguous, lane stride +1)" bounds="all lane contents; unwind 8"
 c01_pipe!(c01_pipe_nearest_2x2_crowrev_ax1, i8, id8, 0i8, Nearest, 2, 2, 4, 2, 5, 1, [T2[3], T2[0]], 8);
-//@ prop=C01,C03:thorough,C20:thorough tier=quick mem=6 timeout=1500 flags=modelmap uses=cut inst="quantiles_axis_mut(Axis(0), [0.5, 0.2, 0.5], Midpoint) on ArrayViewMut2<i16> 2x2 C-order" bounds="i8-range payloads; 3 requests with a repeat; unwind 8"
-c01_pipe!(c01_pipe_midpoint_2x2_c_ax0, i16, w16, 0i16, Midpoint, 2, 2, 4, 3, 0, 0, [T2[2], T2[4], T2[2]], 8);
+//@ prop=C01,C03:thorough,C20:thorough tier=quick mem=6 timeout=1500 flags=modelmap uses=cut inst="quantiles_axis_mut(Axis(0), [0.5, 0.5], Midpoint) on ArrayViewMut2<i16> 2x2 C-order" bounds="i8-range payloads; a repeated request; unwind 8"
+c01_pipe!(c01_pipe_midpoint_2x2_c_ax0, i16, w16, 0i16, Midpoint, 2, 2, 4, 2, 0, 0, [T2[2], T2[2]], 8);
 //@ prop=C01:thorough,C03,C20:thorough tier=quick mem=6 timeout=1500 flags=modelmap uses=cut inst="quantiles_axis_mut(Axis(1), [0.2, 0.5], Higher) on ArrayViewMut2<i8> 2x2 stepped view of a 5x5 parent (guard cells)" bounds="all lane contents; unwind 8"
 c01_pipe!(c01_pipe_higher_2x2_step_ax1, i8, id8, 0i8, Higher, 2, 2, 4, 2, 2, 1, [T2[4], T2[2]], 8);
-//@ prop=C01,C03:thorough,C20:thorough tier=quick mem=6 timeout=1500 flags=modelmap uses=cut inst="quantiles_axis_mut(Axis(0), [0.2, 1.0], Linear) on ArrayViewMut2<i16> 2x2 both axes reversed" bounds="i8-range payloads; unwind 8"
+//@ prop=C01,C03,C20 tier=thorough mem=6 timeout=3000 flags=modelmap uses=cut inst="quantiles_axis_mut(Axis(0), [0.2, 1.0], Linear) on ArrayViewMut2<i16> 2x2 both axes reversed" bounds="i8-range payloads; unwind 8"
 c01_pipe!(c01_pipe_linear_2x2_rev_ax0, i16, w16, 0i16, Linear, 2, 2, 4, 2, 3, 0, [T2[4], T2[1]], 8);
 
 //@ prop=C01,C03,C20 tier=thorough mem=8 timeout=3000 flags=modelmap uses=cut inst="quantiles_axis_mut(Axis(0), [0.75, 0.25, 0.75], Lower) on ArrayViewMut2<i8> 3x2 F-order" bounds="all lane contents; 2 lanes of 3; 3 requests (repeat, non-monotone); unwind 10"
